@@ -21,7 +21,7 @@ SPEC = {
         # the clients' final ip_address fields and the server's final generator are replayed through the extracted
         # Model/DhcpProto.v `step` (ocaml/ipgen_drv.ml, mode `dhcp`): the observation must be a run of the model
         {"name": "dhcp_validate", "bin": "c15_dhcp", "model": "ipgen", "kind": "validate", "model_args": "dhcp",
-         "n_quick": 240, "n_thorough": 8000, "shards": 8, "shards_thorough": 16,
+         "n_quick": 160, "n_thorough": 8000, "shards": 8, "shards_thorough": 16,
          "trivial_re": r"(^(ERR|PANIC|REJECT))|( ; E (CRASH|HANG))", "timeout_quick": 600},
     ],
     "rule": "stage ipgen_lockstep: cases = operation histories (constructor + 1..40 of block_subnet / fetch_ip / "
